@@ -129,10 +129,12 @@ func c08Gates(m *MClaims, c psatoken.IClaims, kp keyPair, st *Stats, extRuleBrok
 	st.Class("gate=EncodeJSON")
 
 	// gate 4: ValidateAndSign vs Sign
+	// (the signer is go-cose's own or one written around a crypto.Signer
+	// handle, by the key's index)
 	evS := &psatoken.Evidence{Claims: c}
-	plainTok, plainSErr := evS.Sign(kp.Signer())
+	plainTok, plainSErr := evS.Sign(kp.AnySigner())
 	evV := &psatoken.Evidence{Claims: c}
-	tok, err := evV.ValidateAndSign(kp.Signer())
+	tok, err := evV.ValidateAndSign(kp.AnySigner())
 	if (err == nil) != (valid && plainSErr == nil) {
 		return fmt.Sprintf("ValidateAndSign: err=%v, Validate()=%v, Sign err=%v", err, verr, plainSErr)
 	}
@@ -696,8 +698,8 @@ func c08Differential(c psatoken.IClaims, kp keyPair) string {
 		return fmt.Sprintf("ValidateAndEncodeClaimsToJSON err=%v vs EncodeClaimsToJSON err=%v, valid=%v", vjErr, pjErr, valid)
 	}
 	e1, e2 := &psatoken.Evidence{Claims: c}, &psatoken.Evidence{Claims: c}
-	ptok, psErr := e1.Sign(kp.Signer())
-	vtok, vsErr := e2.ValidateAndSign(kp.Signer())
+	ptok, psErr := e1.Sign(kp.HSMSigner())
+	vtok, vsErr := e2.ValidateAndSign(kp.HSMSigner())
 	if (vsErr == nil) != (valid && psErr == nil) {
 		return fmt.Sprintf("ValidateAndSign err=%v vs Sign err=%v, valid=%v", vsErr, psErr, valid)
 	}
